@@ -417,19 +417,43 @@ func (b Bars) Valid() bool {
 	return true
 }
 
+// VeryLong returns, rarely, an input length just around 2^14, 2^15 or 2^16 (else 0): for the
+// properties whose own length generators stay near the warm-up. About one draw in 7000 (one in
+// 250 in the thorough tier).
+func VeryLong(t *rapid.T) int {
+	rate, hit := 2999, 1517
+	if engine.Thorough() {
+		rate, hit = 99, 57
+	}
+	if rapid.IntRange(0, rate).Draw(t, "very_long_input") != hit {
+		return 0
+	}
+	return 1<<rapid.IntRange(14, 16).Draw(t, "len_log2_big") + rapid.IntRange(-3, 40).Draw(t, "len_off")
+}
+
 // GenLen draws an input length biased to the interesting regime around the warm-up w:
 // [0, 2w+3] in most draws, with a tail up to a few hundred.
 func GenLen(t *rapid.T, w int, tail int) int {
 	// rarely (about one draw in 600, one in 100 in the thorough tier; an interior value is asked
 	// for because rapid's integer generator favours the bounds of a range): a long input just
-	// around a power of two between 2^8 and 2^13 - block sizes, re-synchronisation intervals and
+	// around a power of two between 2^8 and 2^16 - block sizes, re-synchronisation intervals and
 	// buffer limits live there
 	rate, hit := 249, 137
 	if engine.Thorough() {
 		rate, hit = 49, 23
 	}
 	if rapid.IntRange(0, rate).Draw(t, "long_input") == hit {
-		return 1<<rapid.IntRange(8, 13).Draw(t, "len_log2") + rapid.IntRange(-3, 40).Draw(t, "len_off")
+		// mostly 2^8 .. 2^13; one long input in four goes on to 2^14 .. 2^16 (the sizes at which
+		// 16-bit counters wrap and "refresh every 65536 values" safeguards fire)
+		e := rapid.IntRange(8, 13).Draw(t, "len_log2")
+		big, bigHit := 29, 13 // quick tier: a few dozen such inputs per run
+		if engine.Thorough() {
+			big, bigHit = 3, 2
+		}
+		if rapid.IntRange(0, big).Draw(t, "very_long") == bigHit {
+			e = rapid.IntRange(14, 16).Draw(t, "len_log2_big")
+		}
+		return 1<<e + rapid.IntRange(-3, 40).Draw(t, "len_off")
 	}
 	k := rapid.IntRange(0, 9).Draw(t, "len_class")
 	switch {
